@@ -249,60 +249,81 @@ def print_assumptions(ctx, props_file, theorems):
 
 def coq_phase(ctx, props_file):
     """Build the closure of the property file and check assumptions. Records failures."""
+    text = (COQ / props_file).read_text()
+    theorems = THEOREM_RE.findall(text)
+    ctx.obligations = list(theorems)
+    closure = closure_of(props_file)
+    ctx.stats["coq_closure_files"] = len(closure)
+    bad = scan_forbidden(closure)
+    if bad:
+        ctx.add_failure("coq", "forbidden-declaration", "forbidden-declaration",
+                        "forbidden declarations in the development: " + "; ".join(bad[:5]))
+        return
+    target = props_file[:-2] + ".vo"
+    t0 = time.time()
     with CoqLock():
-        text = (COQ / props_file).read_text()
-        theorems = THEOREM_RE.findall(text)
-        ctx.obligations = list(theorems)
-        closure = closure_of(props_file)
-        ctx.stats["coq_closure_files"] = len(closure)
-        bad = scan_forbidden(closure)
-        if bad:
-            ctx.add_failure("coq", "forbidden-declaration", "forbidden-declaration",
-                            "forbidden declarations in the development: " + "; ".join(bad[:5]))
-            return
-        if ctx.thorough():
-            # full rebuild of the closure
-            for f in closure:
-                for ext in (".vo", ".glob", ".vok", ".vos"):
-                    p = COQ / (f[:-2] + ext)
-                    if p.exists():
-                        p.unlink()
-        target = props_file[:-2] + ".vo"
-        t0 = time.time()
         ok, log = coq_make([target])
-        ctx.stats["coq_make_s"] = round(time.time() - t0, 1)
-        if not ok:
-            m = re.search(r'File "\./([^"]+)", line (\d+)', log)
-            where = f"{m.group(1)}:{m.group(2)}" if m else "?"
-            lemma = failing_lemma(m.group(1), int(m.group(2))) if m else None
-            name = lemma or where
-            ctx.add_failure("coq", name, f"coq:{name}",
-                            f"Coq build of {props_file} failed at {where}: " + tail(log, 1500))
+    ctx.stats["coq_make_s"] = round(time.time() - t0, 1)
+    if not ok:
+        report_build_failure(ctx, props_file, log)
+        return
+    ok, log, res = print_assumptions(ctx, props_file, theorems)
+    for t in theorems:
+        ax = res.get(t)
+        if ax is None:
+            ctx.add_failure("assumptions", t, f"assumptions:{t}",
+                            "Print Assumptions produced no output: " + tail(log, 800))
+            continue
+        ctx.axioms[t] = ax
+        extra = [a for a in ax if a not in ALLOWED_AXIOMS]
+        if extra:
+            ctx.add_failure("assumptions", t, f"assumptions:{t}",
+                            f"theorem depends on non-allow-listed axioms: {extra}")
+        else:
+            ctx.discharged.append(t)
+    if ctx.thorough() and not ctx.failures:
+        thorough_rebuild(ctx, props_file, closure)
+
+
+def report_build_failure(ctx, props_file, log):
+    m = re.search(r'File "\./([^"]+)", line (\d+)', log)
+    where = f"{m.group(1)}:{m.group(2)}" if m else "?"
+    lemma = failing_lemma(m.group(1), int(m.group(2))) if m else None
+    name = lemma or where
+    ctx.add_failure("coq", name, f"coq:{name}",
+                    f"Coq build of {props_file} failed at {where}: " + tail(log, 1500))
+
+
+def thorough_rebuild(ctx, props_file, closure):
+    """Thorough tier: rebuild the closure from clean in a private directory (so that concurrent
+    checks are not disturbed) and re-check it with coqchk, printing the axioms it relies on."""
+    import shutil
+    import tempfile
+    t0 = time.time()
+    with tempfile.TemporaryDirectory(prefix=f"verif-{ctx.pid}-clean-") as d:
+        d = Path(d)
+        for f in closure:
+            (d / f).parent.mkdir(parents=True, exist_ok=True)
+            shutil.copy(COQ / f, d / f)
+        (d / "_CoqProject").write_text("-Q . SV\n" + "\n".join(sorted(closure)) + "\n")
+        subprocess.run(["coq_makefile", "-f", "_CoqProject", "-o", "Makefile"], cwd=d,
+                       check=True, capture_output=True)
+        p = subprocess.run(["timeout", "2400", "make", "-j8", "--no-print-directory"], cwd=d,
+                           capture_output=True, text=True)
+        ctx.stats["clean_rebuild_s"] = round(time.time() - t0, 1)
+        if p.returncode != 0:
+            report_build_failure(ctx, props_file, p.stdout + p.stderr)
+            ctx.discharged = []
             return
-        ok, log, res = print_assumptions(ctx, props_file, theorems)
-        for t in theorems:
-            ax = res.get(t)
-            if ax is None:
-                ctx.add_failure("assumptions", t, f"assumptions:{t}",
-                                "Print Assumptions produced no output: " + tail(log, 800))
-                continue
-            ctx.axioms[t] = ax
-            extra = [a for a in ax if a not in ALLOWED_AXIOMS]
-            if extra:
-                ctx.add_failure("assumptions", t, f"assumptions:{t}",
-                                f"theorem depends on non-allow-listed axioms: {extra}")
-            else:
-                ctx.discharged.append(t)
-        if ctx.thorough() and not ctx.failures:
-            t0 = time.time()
-            mod = "SV." + props_file[:-2].replace("/", ".")
-            p = subprocess.run(["timeout", "1500", "coqchk", "-silent", "-o", "-Q", ".", "SV", mod],
-                               cwd=COQ, capture_output=True, text=True)
-            ctx.stats["coqchk_s"] = round(time.time() - t0, 1)
-            ctx.stats["coqchk_ok"] = p.returncode == 0
-            ctx.stats["coqchk_tail"] = tail(p.stdout + p.stderr, 600)
-            if p.returncode != 0:
-                ctx.add_failure("coq", "coqchk", "coqchk", "coqchk failed: " + tail(p.stdout + p.stderr, 1200))
+        t1 = time.time()
+        mod = "SV." + props_file[:-2].replace("/", ".")
+        p = subprocess.run(["timeout", "2400", "coqchk", "-silent", "-o", "-Q", ".", "SV", mod],
+                           cwd=d, capture_output=True, text=True)
+        ctx.stats["coqchk_s"] = round(time.time() - t1, 1)
+        ctx.stats["coqchk_ok"] = p.returncode == 0
+        ctx.stats["coqchk_tail"] = tail(p.stdout + p.stderr, 1200)
+        if p.returncode != 0:
+            ctx.add_failure("coq", "coqchk", "coqchk", "coqchk failed: " + tail(p.stdout + p.stderr, 1200))
 
 
 def failing_lemma(relfile, line):
